@@ -11,7 +11,10 @@
      serialization.c  cbor_serialize_uint/negint/bytestring/string/array/map/tag/float_ctrl called directly
      getters          cbor_get_int, cbor_get_uint8..64, cbor_int_get_width, cbor_float_get_width,
                       cbor_float_ctrl_is_ctrl, cbor_float_get_float2/4/8, cbor_float_get_float,
-                      cbor_ctrl_value, cbor_get_bool
+                      cbor_ctrl_value, cbor_get_bool, cbor_refcount, cbor_tag_value,
+                      cbor_bytestring_length / is_definite / is_indefinite / chunk_count,
+                      cbor_string_length / codepoint_count / is_definite / is_indefinite / chunk_count,
+                      cbor_array_size / allocated / is_definite / is_indefinite, cbor_map_ (the same four)
 
    The value of an item made by cbor_new_intN / cbor_new_floatN lives in bytes that nobody has written.
    The [node] type has no "no value yet" form, and storing 0 would be a totalisation that hides a read
@@ -26,7 +29,7 @@
 
    Every CBOR_ASSERT of the C functions is an [assert_] / [fail (FAssert id)] here (ids 61-77).
    Definitions only. *)
-From CB Require Export HHist2.
+From CB Require Export HHist2 PUtf8.
 Local Open Scope N_scope.
 
 (* client state: the handle table of HHist.v and the set of items whose value is not yet written *)
@@ -66,9 +69,32 @@ Definition iw_id (w : iwidth) : N := match w with I8 => 0 | I16 => 1 | I32 => 2 
 Definition fw_id (w : fwidth) : N := match w with F16 => 1 | F32 => 2 | F64 => 3 end.             (* cbor_float_width; 0 = ctrl *)
 
 (* cbor_typeof; cbor_isa_uint .. cbor_isa_float_ctrl; cbor_is_int, cbor_is_float, cbor_is_bool,
-   cbor_is_null, cbor_is_undef; then cbor_int_get_width, resp. cbor_float_get_width and
-   cbor_float_ctrl_is_ctrl.  None of these reads an int / float value. *)
-Definition preds_of (n : node) : list N :=
+   cbor_is_null, cbor_is_undef; then the getters of the item's metadata, by type:
+     int          cbor_int_get_width
+     float / ctrl cbor_float_get_width, cbor_float_ctrl_is_ctrl
+     byte string  cbor_bytestring_length, _is_definite, _is_indefinite, and (indefinite) _chunk_count
+     text string  cbor_string_length, _codepoint_count, _is_definite, _is_indefinite, and (indefinite) _chunk_count
+     array / map  cbor_array_size, _allocated, _is_definite, _is_indefinite (resp. the four cbor_map_ functions)
+     tag          cbor_tag_value
+   and finally cbor_refcount.  None of these reads an int / float value.
+   The length of an indefinite string is the 0 its constructor stored (add_chunk does not touch it), and so
+   is its code-point count.  The code-point count of a definite text string is what cbor_string_set_handle
+   stored when the buffer was installed: the DFA's count, or 0 for invalid UTF-8 -- [spec_codepoints]
+   (PUtf8_proofs.stored_codepoints_spec: the DFA computes exactly that, property C16). *)
+Definition meta_of (n : node) : list N :=
+  match n with
+  | NInt _ w _ => [iw_id w]
+  | NFloat w _ => [fw_id w; 0]
+  | NCtrl _ => [0; 1]
+  | NStr false _ bytes => [len bytes; 1; 0]
+  | NStr true _ bytes => [len bytes; spec_codepoints bytes; 1; 0]
+  | NChunked false _ _ _ chunks => [0; 0; 1; len chunks]
+  | NChunked true _ _ _ chunks => [0; 0; 0; 1; len chunks]
+  | NArr indef _ allocated elems => [len elems; allocated; b2n (negb indef); b2n indef]
+  | NMap indef _ allocated pairs => [len pairs; allocated; b2n (negb indef); b2n indef]
+  | NTag v _ => [v]
+  end.
+Definition preds_of (rc : N) (n : node) : list N :=
   let t := skind_id (node_kind n) in
   [t; b2n (t =? 0); b2n (t =? 1); b2n (t =? 2); b2n (t =? 3); b2n (t =? 4); b2n (t =? 5); b2n (t =? 6); b2n (t =? 7);
    b2n (match n with NInt _ _ _ => true | _ => false end);
@@ -76,12 +102,7 @@ Definition preds_of (n : node) : list N :=
    b2n (match n with NCtrl v => (v =? 20) || (v =? 21) | _ => false end);
    b2n (match n with NCtrl v => v =? 22 | _ => false end);
    b2n (match n with NCtrl v => v =? 23 | _ => false end)]
-  ++ match n with
-     | NInt _ w _ => [iw_id w]
-     | NFloat w _ => [fw_id w; 0]
-     | NCtrl _ => [0; 1]
-     | _ => []
-     end.
+  ++ meta_of n ++ [rc].
 
 (* the value getters: cbor_get_int and cbor_get_uintN; cbor_float_get_floatN as bits (NaN canonical)
    and "cbor_float_get_float equals the conversion of that value to double" (decided by the harness);
@@ -346,7 +367,7 @@ Definition serialize_typed (s : cstate3) (k : skind) (h : nat) (n : N) : M (csta
 Definition preds3 (s : cstate3) (h : nat) : M (cstate3 * out3) :=
   match hget (base s) h with
   | None => ret (s, Out OutSkip)
-  | Some a => c <- rd_item a ;; ret (s, OutVals (preds_of (snd c)))
+  | Some a => c <- rd_item a ;; ret (s, OutVals (preds_of (fst c) (snd c)))
   end.
 
 Definition vals3 (s : cstate3) (h : nat) : M (cstate3 * out3) :=
@@ -354,7 +375,7 @@ Definition vals3 (s : cstate3) (h : nat) : M (cstate3 * out3) :=
   | None => ret (s, Out OutSkip)
   | Some a =>
       if memN a (unset s) then fail FUninit else
-      c <- rd_item a ;; ret (s, OutVals (preds_of (snd c) ++ values_of (snd c)))
+      c <- rd_item a ;; ret (s, OutVals (preds_of (fst c) (snd c) ++ values_of (snd c)))
   end.
 
 (* ---------- one call, histories ---------- *)
